@@ -240,8 +240,12 @@ class H2Protocol:
                 # having HPACK encoded them) otherwise.
                 self.connection.send_headers(event.stream_id, event.headers, end_stream=True)
                 await self._flush()
+                self.stream_buffers[event.stream_id].set_complete()
             elif isinstance(event, StreamClosed):
+                stream = self.streams.get(event.stream_id)
                 await self._close_stream(event.stream_id)
+                if isinstance(stream, HTTPStream):
+                    await self._reset_if_unfinished(event.stream_id)
                 idle = len(self.streams) == 0 or all(
                     stream.idle for stream in self.streams.values()
                 )
@@ -431,6 +435,23 @@ class H2Protocol:
             await self._create_stream(event)
             await self.streams[event.stream_id].handle(EndBody(stream_id=event.stream_id))
             self.keep_alive_requests += 1
+
+    async def _reset_if_unfinished(self, stream_id: int) -> None:
+        # The application has finished without finishing the response
+        # it started, tell the client rather than leave it waiting.
+        buffer = self.stream_buffers.get(stream_id)
+        if buffer is None or buffer._complete:
+            return
+        try:
+            self.priority.unblock(stream_id)
+            await self.has_data.set()
+            await buffer.drain()  # What was sent should still be seen
+            self.connection.reset_stream(stream_id, h2.errors.ErrorCodes.INTERNAL_ERROR)
+            await self._flush()
+        except (priority.MissingStreamError, h2.exceptions.ProtocolError):
+            pass  # Already reset or closed
+        finally:
+            await buffer.close()
 
     async def _close_stream(self, stream_id: int) -> None:
         if stream_id in self.streams:
